@@ -673,6 +673,23 @@ func (d *partialDoc) remove(key string, options *ApplyOptions) error {
 	return nil
 }
 
+// parseIndex reads a reference token as an array index. RFC 6901 spells an
+// index as 0 or as digits that do not start with 0, and this library adds the
+// negative indices. Anything else that happens to convert ("+1", "01", "-0")
+// is a member name, not an index.
+func parseIndex(key string) (int, error) {
+	idx, err := strconv.Atoi(key)
+	if err != nil {
+		return 0, err
+	}
+
+	if strconv.Itoa(idx) != key {
+		return 0, fmt.Errorf("Unable to access invalid index: %s: %w", key, ErrInvalidIndex)
+	}
+
+	return idx, nil
+}
+
 // set should only be used to implement the "replace" operation, so "key" must
 // be an already existing index in "d".
 func (d *partialArray) set(key string, val *lazyNode, options *ApplyOptions) error {
@@ -680,7 +697,7 @@ func (d *partialArray) set(key string, val *lazyNode, options *ApplyOptions) err
 		return ErrExpectedArray
 	}
 
-	idx, err := strconv.Atoi(key)
+	idx, err := parseIndex(key)
 	if err != nil {
 		return err
 	}
@@ -709,7 +726,7 @@ func (d *partialArray) add(key string, val *lazyNode, options *ApplyOptions) err
 		return nil
 	}
 
-	idx, err := strconv.Atoi(key)
+	idx, err := parseIndex(key)
 	if err != nil {
 		return fmt.Errorf("value was not a proper array index: '%s': %w", key, err)
 	}
@@ -747,7 +764,7 @@ func (d *partialArray) get(key string, options *ApplyOptions) (*lazyNode, error)
 		return nil, ErrExpectedArray
 	}
 
-	idx, err := strconv.Atoi(key)
+	idx, err := parseIndex(key)
 
 	if err != nil {
 		return nil, err
@@ -783,7 +800,7 @@ func (d *partialArray) remove(key string, options *ApplyOptions) error {
 		return ErrExpectedArray
 	}
 
-	idx, err := strconv.Atoi(key)
+	idx, err := parseIndex(key)
 	if err != nil {
 		// A number too large for an int is an index that no array has.
 		if errors.Is(err, strconv.ErrRange) && options.AllowMissingPathOnRemove {
@@ -893,7 +910,7 @@ func ensurePathExists(pd *container, path string, options *ApplyOptions) error {
 
 			// If the current container is an array which has fewer elements than our target index,
 			// pad the current container with nulls.
-			if arrIndex, err = strconv.Atoi(part); err == nil {
+			if arrIndex, err = parseIndex(part); err == nil {
 				pa, ok := doc.(*partialArray)
 
 				if ok && pa != nil && arrIndex >= len(pa.nodes)+1 {
@@ -906,7 +923,7 @@ func ensurePathExists(pd *container, path string, options *ApplyOptions) error {
 
 			// Check if the next part is a numeric index or "-".
 			// If yes, then create an array, otherwise, create an object.
-			if arrIndex, err = strconv.Atoi(parts[pi+1]); err == nil || parts[pi+1] == "-" {
+			if arrIndex, err = parseIndex(parts[pi+1]); err == nil || parts[pi+1] == "-" {
 				if arrIndex < 0 {
 
 					if !options.SupportNegativeIndices {
